@@ -118,3 +118,75 @@ func c15Unconditional(c *Ctx, prop string) {
 	}
 	c.Floor(rule, 2)
 }
+
+// c15SortedFlag implements <prop>.sorted-flag: Batch.sorted promises that BOTH pair lists are sorted. Every function
+// that appends to one of the lists must either clear the flag unconditionally, or keep it only under a condition
+// computed from the very list it appends to. (A copy-and-paste that tests the other list leaves an unsorted list
+// flagged as sorted: the merge in getAffectedKeys then emits a key twice and one of the two updates is lost.)
+func c15SortedFlag(c *Ctx, prop string) {
+	rule := prop + ".sorted-flag"
+	c.Rule(rule, "A5 in package rdb: every function that stores an append result into Batch.addedPairs / Batch.deletedPairs also stores Batch.sorted; the stored value is the constant false, or a value whose data and control dependences include a load of the same list field and none of the other list field")
+	fA := c.Field("dnsdata/rdb", "Batch", "addedPairs")
+	fD := c.Field("dnsdata/rdb", "Batch", "deletedPairs")
+	fS := c.Field("dnsdata/rdb", "Batch", "sorted")
+	n := 0
+	for _, fn := range c.OurFuncs("dnsdata/rdb") {
+		for _, pair := range [][2]*types.Var{{fA, fD}, {fD, fA}} {
+			own, other := pair[0], pair[1]
+			appended := false
+			for _, st := range storesToField(fn, own) {
+				if isBuiltinCall(st.Val, "append") != nil {
+					appended = true
+				}
+			}
+			// appends through a pointer to the field (helper methods on *kvList) count too
+			for _, ci := range callInstrs(fn) {
+				for _, a := range ci.Common().Args {
+					if fa, ok := a.(*ssa.FieldAddr); ok && fieldOf(fa) == own {
+						if sf := ci.Common().StaticCallee(); sf != nil && sf.Name() != "Sort" && sf.Name() != "Len" {
+							appended = true
+						}
+					}
+				}
+			}
+			if !appended {
+				continue
+			}
+			n++
+			c.Examined(fn)
+			stores := storesToField(fn, fS)
+			ok := len(stores) > 0
+			why := fmt.Sprintf("%d stores to sorted", len(stores))
+			for _, st := range stores {
+				if k, isK := st.Val.(*ssa.Const); isK && k.Value != nil && k.Value.String() == "false" {
+					continue
+				}
+				deps := backSliceCtl(st.Val)
+				// through calls on the lists: receivers/arguments are part of the slice already
+				usesOwn, usesOther := false, false
+				for v := range deps {
+					if isFieldLoad(v, own) {
+						usesOwn = true
+					}
+					if isFieldLoad(v, other) {
+						usesOther = true
+					}
+					if fa, isFA := v.(*ssa.FieldAddr); isFA {
+						if fieldOf(fa) == own {
+							usesOwn = true
+						}
+						if fieldOf(fa) == other {
+							usesOther = true
+						}
+					}
+				}
+				if !usesOwn || usesOther {
+					ok = false
+					why = fmt.Sprintf("sorted is kept under a condition that reads the appended list: %v, the other list: %v", usesOwn, usesOther)
+				}
+			}
+			c.Check(rule, fmt.Sprintf("%s|appends:%s", fnName(fn), own.Name()), ok, fn.Pos(), why)
+		}
+	}
+	c.Floor(rule, 2)
+}
